@@ -18,6 +18,7 @@
 -/
 import Babylon.ExecQ.LemmasProgress
 import Babylon.ExecQ.Sched
+import Babylon.ExecQ.Pinned
 
 namespace Babylon.Properties.C16
 open Babylon.ExecQ Babylon.Gen.ExecQ Babylon.Core
@@ -29,6 +30,15 @@ theorem gen_skel_signal_push_event : skel_signal_push_event = Skel.signal_push_e
 theorem gen_skel_start_consumer : skel_start_consumer = Skel.start_consumer := by decide
 theorem gen_skel_consume_until_empty : skel_consume_until_empty = Skel.consume_until_empty := by decide
 theorem gen_skel_join : skel_join = Skel.join := by decide
+/-- the full statement text of every modelled function is the text the model was written against
+(skeletons and constants below only see the atomic operations; these see everything, e.g. a counter
+that bounds the re-poll loop) -/
+theorem gen_src_execute : src_execute_move = Pinned.execute_move ∧ src_execute_copy = Pinned.execute_copy := ⟨rfl, rfl⟩
+theorem gen_src_signal_push_event : src_signal_push_event = Pinned.signal_push_event := rfl
+theorem gen_src_start_consumer : src_start_consumer = Pinned.start_consumer := rfl
+theorem gen_src_consume_until_empty : src_consume_until_empty = Pinned.consume_until_empty := rfl
+theorem gen_src_join : src_join = Pinned.join := rfl
+theorem gen_src_queue_size : src_queue_size = Pinned.queue_size := rfl
 /-- memory orders of the `_events` protocol (the labels of the model use the generated names, so every
 replayed trace line also checks them) -/
 theorem gen_orders :
